@@ -434,6 +434,9 @@ impl NInner {
     }
     async fn noop(&mut self) {}
     async fn reply(&mut self) {}
+    async fn panic_now(&mut self) {
+        panic!("model panic");
+    }
 }
 impl Model for NInner {}
 struct NOuter {
@@ -550,6 +553,55 @@ fn deadlate(threads: usize, victim_first: bool, query: bool) -> String {
     match rx.recv_timeout(std::time::Duration::from_secs(20)) {
         Ok(r) => format!("deadlate {r}"),
         Err(_) => "deadlate hung".into(),
+    }
+}
+
+/// Two simulations driven from one thread (`twosims <nb> <na> <victim>`): simulation B (single-threaded, `nb` models) has
+/// an event of an `EventSource` connected to a dropped mailbox in its scheduler queue; simulation A (single-threaded, `na` models)
+/// is then initialised on the same thread and model `victim` of A panics; then B is stepped.  B's failure is raised by
+/// its scheduler, not by a model: `NoRecipient { model: None }` — whatever happened to A on this thread.
+fn twosims(nb: usize, na: usize, victim: usize) -> String {
+    let h = std::thread::spawn(move || {
+        let gone: Mailbox<NInner> = Mailbox::new();
+        let mut src: nexosim::ports::EventSource<()> = nexosim::ports::EventSource::new();
+        src.connect(NInner::noop, &gone);
+        let event = src.event(());
+        drop(gone);
+        let mut si = SimInit::with_num_threads(1);
+        for i in 0..nb {
+            si = si.add_model(NInner::default(), Mailbox::new(), format!("b{i}"));
+        }
+        let (mut simb, schedb) = match si.init(MonotonicTime::EPOCH) {
+            Ok(x) => x,
+            Err(e) => return format!("twosims initb-{}", exec_err(&e)),
+        };
+        if schedb.schedule(std::time::Duration::from_secs(1), event).is_err() {
+            return "twosims schedule-rejected".into();
+        }
+        let mut sa = SimInit::with_num_threads(1);
+        let mut addrs = Vec::new();
+        for i in 0..na {
+            let mb = Mailbox::new();
+            addrs.push(mb.address());
+            sa = sa.add_model(NInner::default(), mb, format!("a{i}"));
+        }
+        let ra = match sa.init(MonotonicTime::EPOCH) {
+            Ok((mut sima, _s)) => match sima.process_event(NInner::panic_now, (), &addrs[victim]) {
+                Ok(()) => "ok".to_string(),
+                Err(e) => exec_err(&e),
+            },
+            Err(e) => format!("init-{}", exec_err(&e)),
+        };
+        let rb = match std::panic::catch_unwind(std::panic::AssertUnwindSafe(|| simb.step())) {
+            Ok(Ok(())) => "ok".to_string(),
+            Ok(Err(e)) => exec_err(&e),
+            Err(_) => "step-panicked".to_string(),
+        };
+        format!("twosims a={ra} b={rb}")
+    });
+    match h.join() {
+        Ok(r) => r,
+        Err(_) => "twosims crashed".into(),
     }
 }
 
@@ -1224,6 +1276,16 @@ impl Engine for Net {
                     out.tags.push("deadlate".into());
                     r
                 }
+                ["twosims", nb, na, victim] => {
+                    let (nb, na, victim): (usize, usize, usize) = (nb.parse().unwrap(), na.parse().unwrap(), victim.parse().unwrap());
+                    let r = twosims(nb, na, victim);
+                    if !r.ends_with("b=no-recipient -") {
+                        out.monitor.push(("C11".into(), format!("two single-threaded simulations driven from one thread: model a{victim} of the first panicked (reported: {r}); the second then stepped an event its scheduler sends to a dropped mailbox, which must be reported as NoRecipient without a model name")));
+                    }
+                    out.nontrivial = true;
+                    out.tags.push("twosims".into());
+                    r
+                }
                 ["nestrun", th, kind, n] => {
                     let (th, n): (usize, usize) = (th.parse().unwrap(), n.parse().unwrap());
                     let k: u8 = match *kind {
@@ -1595,6 +1657,10 @@ fn gen_case(rng: &mut Rng, _idx: usize, tier: Tier, focus: &str) -> Case {
     if (focus == "C11" && rng.chance(1, 15)) || rng.chance(1, 120) {
         return Case { lines: vec!["case net exec st".into(), format!("deadlate {} {} {}", rng.pick(&[1u64, 1, 2, 4]), rng.below(2), rng.below(2))] };
     }
+    if (focus == "C11" && rng.chance(1, 15)) || rng.chance(1, 150) {
+        let na = rng.range(1, 4);
+        return Case { lines: vec!["case net exec st".into(), format!("twosims {} {na} {}", rng.range(0, 3), rng.below(na))] };
+    }
     if ((focus == "C06" || focus == "C11") && rng.chance(1, 12)) || rng.chance(1, 90) {
         let kind = *rng.pick(&["clean", "lose", "deadlock", "panic"]);
         return Case { lines: vec!["case net exec st".into(), format!("nestrun {} {kind} {}", rng.pick(&[1u64, 1, 2, 4]), rng.range(1, 3))] };
@@ -1881,6 +1947,11 @@ fn gen_case(rng: &mut Rng, _idx: usize, tier: Tier, focus: &str) -> Case {
             fault_cmds.push(format!("ev {fault_model} 666"));
         }
         _ => {}
+    }
+    // a generous time-out that never fires: the run goes through the watchdog path of the executor (on one thread the
+    // model code then runs on a helper thread) and must report exactly what it reports without a time-out
+    if fault_kind != 3 && rng.chance(1, if focus == "C06" || focus == "C04" || focus == "C11" { 3 } else { 8 }) {
+        fault_lines.push("timeout 30000".into());
     }
     // ---- an EventSource with several connections, often to the same (small) mailbox
     let with_src = rng.chance(1, 3) || focus == "C03";
